@@ -169,6 +169,48 @@ def check_reoffer(run, stage, n_workers):
             got, want, obs.get("returned"), obs.get("raised"), obs.get("missing")))
 
 
+def check_many_items(run, stage, n_workers):
+    """Extraction only (no schedule model), with MANY items: the work items the producer's messages stand for — as the
+    messages are when put() is called, and as they are when the producer has finished (a real Queue pickles a message
+    in its feeder thread at some moment in between) — are the serial item set, once each."""
+    n = stage.extract_count
+    name = "%s[I=%d,W=%d].items-equal-serial" % (stage.name, n, n_workers)
+    script, rec = producer_script(stage, n, n_workers)
+    puts = [op for op in script if op[0] == "put"]
+    serial = []
+    stage.run_serial(n, lambda k: serial.append(k))
+    key = lambda items: sorted(map(repr, items))
+    late = items_of_messages(stage, [op[2] for op in puts])
+    early = items_of_messages(stage, [op[3] if len(op) > 3 else op[2] for op in puts])
+    if key(early) == key(serial) and key(late) == key(serial):
+        run.ob(name, "confirmed", "E3:extraction", "%d message(s) for %d items: expanded by the real worker they are exactly the serial item set, once each, both as put and as left when the producer finished" % (len(puts), len(serial)))
+        return
+    if key(early) == key(serial):
+        # the producer keeps modifying a message after put(): what a worker receives depends on when the feeder pickles it
+        maxsize = mpmodel.script_maxsize(script) or len(puts)
+        obs = reoffer_replay(stage.name, n, n_workers, n_workers + min(len(puts), maxsize) + 1)
+        run.replays += 1
+        if obs.get("returned") and obs["missing"]:
+            text = ("# the producer runs ahead of its queue's feeder thread (which pickles each message when it gets to it), then everybody runs freely - on the real %s\nimport sys\nsys.path.insert(0, %r)\nimport props.C03 as P\n"
+                    "obs = P.reoffer_replay(%r, %d, %d, %d)\nprint(obs.get('returned'), 'missing', len(obs['missing']))\nsys.exit(1 if (obs.get('returned') and obs['missing']) else 0)\n"
+                    ) % (stage.name, str(__import__("vlib.core").core.VERIF), stage.name, n, n_workers, n_workers + min(len(puts), maxsize) + 1)
+            run.violation(name, "%s:message-mutated-after-put" % stage.name,
+                          "%s(parallel=%d) with %d items: the producer modifies a message after put() (as put: the serial items; when the producer has finished: %d of them); with the producer running ahead of the feeder thread the real entry point returns normally with %d item(s) never processed" % (
+                              stage.name, n_workers, n, len(set(map(repr, late)) & set(map(repr, serial))), len(obs["missing"])), text, "E3:extraction+detsched")
+        else:
+            run.error(name, "messages are modified after put() (%d/%d items left) but the directed schedule on the real code shows nothing missing: %r" % (len(late), len(serial), {k: obs.get(k) for k in ("returned", "raised", "missing")}))
+        return
+    run.violation(name, "%s:item-set-differs-from-serial" % stage.name, "%s with %d items enqueues %d work items (%d distinct) but serial mode processes %d" % (stage.name, n, len(early), len(set(map(repr, early))), len(serial)),
+                  ("# the items the real parallel producer enqueues (expanded by the real worker) vs the items the real serial path processes\nimport sys\nsys.path.insert(0, %r)\n"
+                   "import props.C03 as P\nfrom props.stages import STAGES\nst = [s for s in STAGES if s.name == %r][0]\n"
+                   "script, rec = P.producer_script(st, %d, %d)\npar = P.items_of_messages(st, [op[3] if len(op) > 3 else op[2] for op in script if op[0] == 'put'])\nserial = []\nst.run_serial(%d, lambda k: serial.append(k))\n"
+                   "print(len(par), len(serial))\nsys.exit(1 if sorted(map(repr, par)) != sorted(map(repr, serial)) else 0)\n") % (str(__import__("vlib.core").core.VERIF), stage.name, n, n_workers, n), "E3:extraction")
+
+
+def job_many(run, stage_name, n_workers):
+    check_many_items(run, [s for s in STAGES if s.name == stage_name][0], n_workers)
+
+
 def job_reoffer(run, stage_name, n_workers):
     check_reoffer(run, [s for s in STAGES if s.name == stage_name][0], n_workers)
 
@@ -268,8 +310,8 @@ def check(run):
     stages = [s for s in STAGES if not getattr(run, "only", None) or any(o in s.name for o in run.only)]
     from vlib.core import run_parallel
     jobs = [(st.name, n_items, w) for st in stages for n_items in st.item_counts[run.tier] for w in WORKERS[run.tier]]
-    run_parallel(run, __name__, "job_any", [("stage",) + j for j in jobs] + [("reoffer", st.name, 2) for st in stages])
+    run_parallel(run, __name__, "job_any", [("stage",) + j for j in jobs] + [("reoffer", st.name, 2) for st in stages] + [("many", st.name, 2) for st in stages if st.extract_count])
 
 
 def job_any(run, kind, *args):
-    (job_stage if kind == "stage" else job_reoffer)(run, *args)
+    {"stage": job_stage, "reoffer": job_reoffer, "many": job_many}[kind](run, *args)
